@@ -32,19 +32,19 @@ type bulkReq struct {
 }
 
 type bulkStream struct {
-	idx     int
-	style   string // "cli" (harness drains cli.Bulk) or "http" (the /bulk handler drains it)
-	reqs    []bulkReq
-	input   []byte
-	rd      *SimReader
-	opts    *cli.BulkOptions
-	mu      sync.Mutex
-	resp    []wireResp
-	httpOut *SimWriter
-	closed  bool
-	expect  map[int64]string // seq -> normalised standalone payload or "error:<...>"
-	nOK     int              // requests the decoder will accept
-	decErr  bool             // the stream ends in a decode error
+	idx       int
+	style     string // "cli" (harness drains cli.Bulk) or "http" (the /bulk handler drains it)
+	reqs      []bulkReq
+	input     []byte
+	rd        *SimReader
+	opts      *cli.BulkOptions
+	mu        sync.Mutex
+	resp      []wireResp
+	httpOut   *SimWriter
+	closed    bool
+	expect    map[int64]string // seq -> normalised standalone payload or "error:<...>"
+	nOK       int              // requests the decoder will accept
+	decErr    bool             // the stream ends in a decode error
 	ctx       context.Context
 	cancel    context.CancelFunc
 	cancelled bool // the caller's context was cancelled while the stream was open
